@@ -13,6 +13,7 @@ from __future__ import annotations
 
 import json
 import math
+import pickle
 import random
 from fractions import Fraction
 
@@ -84,6 +85,11 @@ def _replay_chunk(args):
                 objs[i] = DiffuseDroplet(p, float(r), None if w[0] < 0 else w[0] / w[1])
             else:
                 objs[i] = SphericalDroplet(p, float(r))
+            if idx % 3 == 1:
+                # operands that went through pickle (as every droplet handed to / returned by a worker process does)
+                objs[i] = pickle.loads(pickle.dumps(objs[i]))
+            elif idx % 3 == 2 and i % 2 == 0:
+                objs[i] = objs[i].copy()
         try:
             for h in rec["hist"]:
                 a, b = objs[h["i"]], objs[h["j"]]
